@@ -20,6 +20,7 @@ FUNCTIONS = [
     'hephaestus._run',
     'hephaestus.run.process_res',
     'hephaestus.run_parallel.process_res.update',
+    'src.args.validate_args',
 ]
 TRUSTED = [
     'external contracts (assumed): os.path.join / str(pid) give pairwise distinct paths Saved(pid), Tmp(pid) (injective, '
